@@ -767,3 +767,195 @@ func monoDivide(m, d []*Term) ([]*Term, bool) {
 	}
 	return rest, true
 }
+
+// ---------- exponent mode: straight-line square-and-multiply chains ----------
+//
+// A `<function>#exp` entry states that a function built only from calls mul(dst, a, b) and square(dst, a) (and
+// constant-bound loops of them) raises its input to a fixed exponent:
+//   exp_ops mul=sm2Mul square=sm2Square
+//   exp_in x
+//   exp_out z == 0x...            the exponent of x held by z on return (z and x distinct objects)
+// Every value is x^e for a natural number e; mul adds exponents, square doubles them. The obligation exp:<out>
+// compares the exponent computed by executing the body with the stated constant (exact big-integer arithmetic).
+
+func (eng *Engine) VerifyExp(key string) ([]ringObl, error) {
+	fi := eng.funcs[key]
+	ct := eng.contracts[key+"#exp"]
+	if fi == nil || fi.Decl.Body == nil {
+		return nil, fmt.Errorf("no function %s", key)
+	}
+	if ct == nil {
+		return nil, fmt.Errorf("no #exp contract for %s", key)
+	}
+	var mulName, sqName, inName, outName string
+	var want *big.Int
+	for _, raw := range ct.Raw {
+		f := strings.Fields(raw)
+		switch f[0] {
+		case "exp_ops":
+			for _, kv := range f[1:] {
+				if strings.HasPrefix(kv, "mul=") {
+					mulName = kv[4:]
+				}
+				if strings.HasPrefix(kv, "square=") {
+					sqName = kv[7:]
+				}
+			}
+		case "exp_in":
+			inName = f[1]
+		case "exp_out":
+			outName = f[1]
+			v, ok := new(big.Int).SetString(strings.TrimPrefix(f[3], "0x"), 16)
+			if !ok {
+				return nil, fmt.Errorf("exp_out: bad exponent")
+			}
+			want = v
+		}
+	}
+	if mulName == "" || sqName == "" || inName == "" || want == nil {
+		return nil, fmt.Errorf("%s#exp: exp_ops, exp_in and exp_out are required", key)
+	}
+	info := fi.Pkg.TypesInfo
+	vals := map[types.Object]*big.Int{} // object (pointer variable) -> exponent held by its pointee; aliasing by pointer identity is not modelled: distinct variables are distinct objects
+	objs := paramObjs(fi)
+	names := paramNames(fi)
+	var outObj types.Object
+	for i, n := range names {
+		if n == inName {
+			vals[objs[i]] = big.NewInt(1)
+		}
+		if n == outName {
+			outObj = objs[i]
+		}
+	}
+	pos := fi.Pkg.Fset.Position(fi.Decl.Pos())
+	ob := ringObl{Name: key + "/exp:" + outName, Pos: fmt.Sprintf("%s:%d", pos.Filename[strings.LastIndex(pos.Filename, "/")+1:], pos.Line)}
+	var failure string
+	obj := func(e ast.Expr) types.Object {
+		if id, ok := unparen(e).(*ast.Ident); ok {
+			if o := info.Uses[id]; o != nil {
+				return o
+			}
+			return info.Defs[id]
+		}
+		return nil
+	}
+	get := func(e ast.Expr) *big.Int {
+		o := obj(e)
+		if o == nil {
+			failure = "operand " + exprString(e) + " is not a variable"
+			return big.NewInt(0)
+		}
+		v, ok := vals[o]
+		if !ok {
+			failure = "operand " + exprString(e) + " is read before it is written"
+			return big.NewInt(0)
+		}
+		return v
+	}
+	nops := 0
+	var run func(s ast.Stmt)
+	run = func(s ast.Stmt) {
+		if failure != "" {
+			return
+		}
+		switch x := s.(type) {
+		case *ast.DeclStmt:
+			gd := x.Decl.(*ast.GenDecl)
+			for _, sp := range gd.Specs {
+				vs, ok := sp.(*ast.ValueSpec)
+				if !ok {
+					continue
+				}
+				for i, n := range vs.Names {
+					if i < len(vs.Values) {
+						if c, ok := vs.Values[i].(*ast.CallExpr); ok {
+							if id, ok := c.Fun.(*ast.Ident); ok && id.Name == "new" {
+								continue // fresh temporary, unwritten
+							}
+						}
+						failure = "initialiser of " + n.Name + " is not new(T)"
+					}
+				}
+			}
+		case *ast.ExprStmt:
+			c, ok := x.X.(*ast.CallExpr)
+			if !ok {
+				failure = "statement is not a call"
+				return
+			}
+			id, ok := c.Fun.(*ast.Ident)
+			if !ok {
+				failure = "call to " + exprString(c.Fun) + " is neither the multiplication nor the squaring"
+				return
+			}
+			switch {
+			case id.Name == mulName && len(c.Args) == 3:
+				a, b := get(c.Args[1]), get(c.Args[2])
+				if o := obj(c.Args[0]); o != nil {
+					vals[o] = new(big.Int).Add(a, b)
+				} else {
+					failure = "destination is not a variable"
+				}
+				nops++
+			case id.Name == sqName && len(c.Args) == 2:
+				a := get(c.Args[1])
+				if o := obj(c.Args[0]); o != nil {
+					vals[o] = new(big.Int).Lsh(a, 1)
+				} else {
+					failure = "destination is not a variable"
+				}
+				nops++
+			default:
+				failure = "call to " + id.Name + " is neither " + mulName + " nor " + sqName
+			}
+		case *ast.ForStmt:
+			// for s := C1; s < C2; s++ { body } with constants
+			init, ok1 := x.Init.(*ast.AssignStmt)
+			cond, ok2 := x.Cond.(*ast.BinaryExpr)
+			_, ok3 := x.Post.(*ast.IncDecStmt)
+			if !ok1 || !ok2 || !ok3 || cond.Op != token.LSS {
+				failure = "loop is not of the form for s := a; s < b; s++"
+				return
+			}
+			lo, okl := info.Types[init.Rhs[0]]
+			hi, okh := info.Types[cond.Y]
+			if !okl || !okh || lo.Value == nil || hi.Value == nil {
+				failure = "loop bounds are not constants"
+				return
+			}
+			var l, h int64
+			fmt.Sscan(lo.Value.ExactString(), &l)
+			fmt.Sscan(hi.Value.ExactString(), &h)
+			for i := l; i < h; i++ {
+				for _, st := range x.Body.List {
+					run(st)
+				}
+			}
+		case *ast.BlockStmt:
+			for _, st := range x.List {
+				run(st)
+			}
+		case *ast.ReturnStmt, *ast.EmptyStmt:
+		default:
+			failure = fmt.Sprintf("statement %T is outside the square-and-multiply subset", s)
+		}
+	}
+	run(fi.Decl.Body)
+	if failure != "" {
+		ob.Msg = "not in the straight-line subset: " + failure
+		return []ringObl{ob}, nil
+	}
+	got, ok := vals[outObj]
+	if !ok {
+		ob.Msg = "output " + outName + " is never written"
+		return []ringObl{ob}, nil
+	}
+	if got.Cmp(want) == 0 {
+		ob.OK = true
+		ob.Msg = fmt.Sprintf("%d multiplications/squarings", nops)
+	} else {
+		ob.Msg = fmt.Sprintf("the chain raises to 0x%s, the contract states 0x%s", got.Text(16), want.Text(16))
+	}
+	return []ringObl{ob}, nil
+}
